@@ -370,3 +370,25 @@ def exh_spec(index):
     spec = dict(tasks=tasks, teams=[dict(workers=workers, targets=list(range(nT)))], components=[], workplaces=[])
     params = dict(rule=rule, absence=[1] if index % 2 else [], autoFlag=False, maxTime=30)
     return spec, params
+
+
+def nest_spec(rng, spec):
+    """turn the flat product of a spec into a forest (component i may become a child of some j < i)"""
+    cs = spec.get("components", [])
+    if len(cs) < 2:
+        return False
+    done = False
+    for i in range(1, len(cs)):
+        if rng.random() < 0.7:
+            cs[rng.randrange(i)].setdefault("children", []).append(i)
+            done = True
+    return done
+
+
+def gen_nested(rng):
+    """a model with a nested product (outside the Lean model: real runs + predicates only)"""
+    for _ in range(50):
+        spec = gen_facility_theme(rng) if rng.random() < 0.7 else gen_spec(rng, "full")
+        if spec.get("components") and nest_spec(rng, spec):
+            return spec
+    return spec
